@@ -338,6 +338,10 @@ class C11(Check):
                     continue
                 if name == "uuid" and sb0["s_uuid"] == b"\0" * 16:
                     continue        # a filesystem without a UUID is given one by whichever tool opens it next (documented)
+                if rid == "dirindex_on" and name == "hashalg" and rd(sb0) == 0:
+                    # tune2fs treats s_def_hash_version 0 as "none chosen yet" and picks half_md4 when it turns
+                    # dir_index on; every indexed directory records its own hash version, so nothing is reinterpreted
+                    continue
                 if rd(sb0) != rd(sb1):
                     o.violate("%s|collateral|%s" % (rid, name), "setting '%s' changed from %r to %r although only %s was requested: %s" %
                               (name, rd(sb0), rd(sb1), rid, where), skey="collateral")
